@@ -60,31 +60,34 @@ Definition same_data (d : adata) (kept : list (att * committee)) : list (att * c
 (* the inclusion window: an attestation with target epoch t can be included while the current epoch is <= t+1 *)
 Definition includable (epoch : N) (t : N) : bool := epoch_prev epoch <=? t.
 
+(* an unaggregated attestation by validator [v] *)
+Definition as_add_single (s : aspec) (a : att) (v : N) : aspec * bool :=
+  match find (fun va => (fst va =? v) && (tepoch (snd va) =? tepoch a)) (as_singles s) with
+  | Some (_, a') => if data_eqb (a_data a') (a_data a)
+                    then (s, true)            (* this validator's vote is already there: absorbed *)
+                    else (s, false)           (* double vote: reported *)
+  | None => (mkAS (as_singles s ++ [(v, a)]) (as_kept s), true)
+  end.
+(* an aggregate *)
+Definition as_add_agg (s : aspec) (a : att) (comm : committee) : aspec * bool :=
+  match same_data (a_data a) (as_kept s) with
+  | [] =>
+      if forallb (fun v => voted (as_kept s) v (tepoch a)) (att_parts (a, comm))
+      then (s, false)                         (* every participant already voted for other data this epoch *)
+      else (mkAS (as_singles s) (as_kept s ++ [(a, comm)]), true)
+  | ((a0, _) :: _) as same =>
+      if negb (Nat.eqb (length (decode (a_bits a0))) (length (decode (a_bits a)))) then (s, false)
+      else if covered same (a_bits a) then (s, true)     (* nothing new (includes exact duplicates): absorbed *)
+      else (mkAS (as_singles s) (as_kept s ++ [(a, comm)]), true)
+  end.
 (* AddAttestation: (state', true) = accepted (nil), (state', false) = refused with an error *)
 Definition as_add (s : aspec) (a : att) (comm : committee) : aspec * bool :=
   let flags := decode (a_bits a) in
   let n := count_true flags in
-  if n =? 0 then (s, false)
-  else if negb (Nat.eqb (length flags) (length comm)) then (s, false)
-  else if n =? 1 then
-    let v := hd 0 (participants flags comm) in
-    match find (fun va => (fst va =? v) && (tepoch (snd va) =? tepoch a)) (as_singles s) with
-    | Some (_, a') => if data_eqb (a_data a') (a_data a)
-                      then (s, true)            (* this validator's vote is already there: absorbed *)
-                      else (s, false)           (* double vote: reported *)
-    | None => (mkAS (as_singles s ++ [(v, a)]) (as_kept s), true)
-    end
-  else
-    match same_data (a_data a) (as_kept s) with
-    | [] =>
-        if forallb (fun v => voted (as_kept s) v (tepoch a)) (participants flags comm)
-        then (s, false)                         (* every participant already voted for other data this epoch *)
-        else (mkAS (as_singles s) (as_kept s ++ [(a, comm)]), true)
-    | ((a0, _) :: _) as same =>
-        if negb (Nat.eqb (length (decode (a_bits a0))) (length flags)) then (s, false)
-        else if covered same (a_bits a) then (s, true)     (* nothing new (includes exact duplicates): absorbed *)
-        else (mkAS (as_singles s) (as_kept s ++ [(a, comm)]), true)
-    end.
+  if n =? 0 then (s, false)                                        (* empty *)
+  else if negb (Nat.eqb (length flags) (length comm)) then (s, false)   (* committee of another size *)
+  else if n =? 1 then as_add_single s a (hd 0 (participants flags comm))
+  else as_add_agg s a comm.
 
 Definition q_match (oslot oidx : option N) (d : adata) : bool :=
   opt_match oslot (d_slot d) && opt_match oidx (d_index d).
